@@ -104,7 +104,7 @@ def extract(repo):
         # keep the 4 most recently used trees
         ents = sorted((e for e in os.listdir(CACHE) if os.path.isdir(os.path.join(CACHE, e)) and not e.endswith(".partial")),
                       key=lambda e: os.path.getmtime(os.path.join(CACHE, e)), reverse=True)
-        for e in ents[12:]:
+        for e in ents[90:]:
             shutil.rmtree(os.path.join(CACHE, e), ignore_errors=True)
             try:
                 os.unlink(os.path.join(CACHE, e + ".lock"))
